@@ -7,6 +7,12 @@ VERIF = os.path.dirname(os.path.dirname(os.path.abspath(__file__)))
 REPO = os.environ.get('SYNAPGRAD_REPO', '/repo')
 LEAN_DIR = os.path.join(VERIF, 'lean')
 DRIVER = os.path.join(LEAN_DIR, '.lake', 'build', 'bin', 'synapdrv')
+# definitions generated from the source on this run: one executable per generated file (a source one translator cannot read must not
+# take the others down)
+GEN_DRIVERS = {'gf ': os.path.join(LEAN_DIR, '.lake', 'build', 'bin', 'genformulas'),
+               'gs ': os.path.join(LEAN_DIR, '.lake', 'build', 'bin', 'gensteps'),
+               'ge ': os.path.join(LEAN_DIR, '.lake', 'build', 'bin', 'genlogic')}
+GEN_PREFIXES = tuple(GEN_DRIVERS)
 ALLOWED_AXIOMS = {'propext', 'Classical.choice', 'Quot.sound'}
 
 _impl = None
@@ -49,11 +55,8 @@ def show_opt(f, x):
     return '-' if x is None else f(x)
 
 # ---------------------------------------------------------------- driver
-def run_driver(lines, timeout=600):
-    """send all lines to one driver process, return the answer lines (same length)"""
-    if not lines:
-        return []
-    p = subprocess.run([DRIVER], input='\n'.join(lines) + '\n', capture_output=True, text=True, timeout=timeout)
+def _run_one(binary, lines, timeout):
+    p = subprocess.run([binary], input='\n'.join(lines) + '\n', capture_output=True, text=True, timeout=timeout)
     if p.returncode != 0:
         raise RuntimeError(f'driver exited with {p.returncode}: {p.stderr[:500]}')
     out = p.stdout.split('\n')
@@ -61,6 +64,31 @@ def run_driver(lines, timeout=600):
         out.pop()
     if len(out) != len(lines):
         raise RuntimeError(f'driver answered {len(out)} lines for {len(lines)} requests')
+    return out
+
+
+def run_driver(lines, timeout=600):
+    """send all lines to one driver process, return the answer lines (same length).  Lines about the definitions generated from
+    the source on this run (`gf` / `gs` / `ge`) go to the separate executable `synapgen`; when that executable could not be
+    built (a source the translators cannot read) they are answered `no-generated-definition`."""
+    if not lines:
+        return []
+    gen = [k for k, l in enumerate(lines) if l.startswith(GEN_PREFIXES)]
+    if not gen:
+        return _run_one(DRIVER, lines, timeout)
+    gset = set(gen)
+    rest = [k for k in range(len(lines)) if k not in gset]
+    out = [None] * len(lines)
+    if rest:
+        for k, o in zip(rest, _run_one(DRIVER, [lines[k] for k in rest], timeout)): out[k] = o
+    for pre, binary in GEN_DRIVERS.items():
+        ks = [k for k in gen if lines[k].startswith(pre)]
+        if not ks: continue
+        try:
+            go = _run_one(binary, [lines[k] for k in ks], timeout) if os.path.exists(binary) else None
+        except Exception:
+            go = None
+        for j, k in enumerate(ks): out[k] = go[j] if go is not None else 'no-generated-definition'
     return out
 
 # ---------------------------------------------------------------- misc
